@@ -3,6 +3,7 @@ package props
 import (
 	"bytes"
 	"fmt"
+	"strings"
 	"sync"
 
 	"github.com/yuin/goldmark/parser"
@@ -185,7 +186,37 @@ func runC08SharedContext(r *core.Run) {
 	}
 }
 
+// runC08Depth: documents nested to EVERY depth 1..maxD (block quotes; bullet lists, two containers per level): whatever
+// is limited or cached per nesting level is crossed by the prefixed document one level before the plain one.
+func runC08Depth(r *core.Run) {
+	maxD := core.Pick(r, 530, 1100)
+	leaves := []string{"# t", "a", "- i", "```\nc\n```", "<div>"}
+	var docs [][]byte
+	for n := 1; n <= maxD; n++ {
+		for _, l := range leaves {
+			pre := strings.Repeat("> ", n)
+			docs = append(docs, []byte(pre+strings.ReplaceAll(l, "\n", "\n"+pre)+"\n"))
+		}
+		if n <= maxD/2 {
+			var b strings.Builder
+			for i := 0; i < n; i++ {
+				b.WriteString(strings.Repeat("  ", i) + "- l\n")
+			}
+			ind := strings.Repeat("  ", n)
+			docs = append(docs, []byte(b.String()+ind+"> - item\n"), []byte(b.String()+ind+"# t\n"))
+		}
+	}
+	for _, cn := range []string{"core", "gfm+unsafe"} {
+		docsSub(r, "depth-ladder/"+cn, fmt.Sprintf("block quotes nested to every depth 1..%d around a heading, a paragraph, a list item, a fenced code block and an HTML block; bullet lists nested to every depth 1..%d around a quoted item and a heading; under %s: prefixing wraps the same content", maxD, maxD/2, cn),
+			core.MustCfg(cn), docs, func(s *core.Sub, cv *core.Conv, w []byte) {
+				st := &c08State{}
+				c08Case(s, cv, w, 1, st)
+			})
+	}
+}
+
 func runC08(r *core.Run) {
+	runC08Depth(r)
 	runC08SharedContext(r)
 	depth := 3
 	type job struct {
